@@ -62,7 +62,7 @@ def run(ctx):
     for c in withs:
         nm = c.nfn.split('::')[-1]
         if nm == 'with_client_id':
-            requires(ctx, bf, c.bb, [r'^Option::is_none\(ConnectOptions::client_id\(connect_options\)\)$'], 'clientid|guard', 'generating a client id', loc=c.loc())
+            requires(ctx, bf, c.bb, [r'^ConnectOptions::client_id\(connect_options\) is None$'], 'clientid|guard', 'generating a client id', loc=c.loc())
             ctx.ob('v4::new_v4()' in show(c.arg(1)), 'the generated client id is a fresh UUID', 'clientid|uuid', loc=c.loc())
         elif nm == 'with_username':
             requires(ctx, bf, c.bb, [r'^self\.custom_auth_options is Some$'], 'username|guard', 'overriding the username', loc=c.loc())
@@ -72,7 +72,7 @@ def run(ctx):
     # the snapshot of "no client id" is taken from the user's options before they are moved
     snap = bf.calls('ConnectOptions::client_id')
     ctx.ob(len(snap) == 1 and src and bf.dominates(snap[0].bb, src[0].bb), 'the "no client id" test reads the user\'s options', 'clientid|snapshot', loc=bf.loc())
-    G = [r'^\(MqttClientOptions::protocol_mode\(options\) == ProtocolMode::Mqtt311\{\}\)$', r'^Option::is_none\(MqttClientOptions::post_reconnect_queue_drain_policy\(options\)\)$', r'^Option::is_none\(MqttClientOptions::max_interrupted_retries\(options\)\)$']
+    G = [r'^\(MqttClientOptions::protocol_mode\(options\) == ProtocolMode::Mqtt311\{\}\)$', r'^MqttClientOptions::post_reconnect_queue_drain_policy\(options\) is None$', r'^MqttClientOptions::max_interrupted_retries\(options\) is None$']
     for c in w2:
         nm = c.nfn.split('::')[-1]
         requires(ctx, ad, c.bb, G, 'defaults|guard|' + nm, 'applying the AWS default ' + nm, loc=c.loc())
